@@ -119,7 +119,9 @@ def render_tree(tree, in_options):
             # an input named by a plain string in extra_deps= is an input path like any other
             L.append("_x = build_step('xdep_%d.txt', cmd=['gen', build_step.output, '--', build_step.input], "
                      "files=['in.txt'], extra_deps=['xd.txt'])" % i)
-            L.append("default(_out, _g, _x)")
+            # an explicit intermediate directory is an output path like any other
+            L.append("_sl = static_library('sl_%d', ['c_%d.c'], intermediate_dir='objs')" % (i, i))
+            L.append("default(_out, _g, _x, _sl)")
             L.append("_rec['paths'] = [_out.path.suffix, _out.path.root.name, "
                      "_out.creator.file.path.suffix, _out.creator.file.path.root.name]")
         if n['parent'] is None:
@@ -133,6 +135,7 @@ def render_tree(tree, in_options):
         files[os.path.join(n['dir'], name)] = '\n'.join(L) + '\n'
         files[os.path.join(n['dir'], 'in.txt')] = 'content of node %d\n' % i
         files[os.path.join(n['dir'], 'xd.txt')] = 'extra dependency of node %d\n' % i
+        files[os.path.join(n['dir'], 'c_%d.c' % i)] = 'int c_%d;\n' % i
         if n['kids']:
             sd = os.path.join(n['dir'], 'shared')
             files[os.path.join(sd, name)] = (
@@ -239,6 +242,14 @@ def _tree_shard(arg):
                     elif kind == 'copy' and open(p).read() != 'content of node %d\n' % nd['id']:
                         viol.append(('input-misresolved', desc, '%s has content %r'
                                      % (name, open(p).read())))
+            for nd in nodes:
+                o = os.path.join(pr.bld, nd['dir'], 'objs', 'c_%d.o' % nd['id'])
+                if not os.path.exists(o):
+                    where = [os.path.relpath(os.path.join(b, f), pr.bld) for b, ds, fs in os.walk(pr.bld)
+                             for f in fs if f == 'c_%d.o' % nd['id']]
+                    viol.append(('intermediate_dir-misplaced', desc,
+                                 "script %d: static_library(..., intermediate_dir='objs'): object expected at %s, "
+                                 'found at %r' % (nd['id'], os.path.join('<bld>', nd['dir'], 'objs'), where)))
             created = sorted(os.path.relpath(os.path.join(b, f), pr.bld) for b, ds, fs in os.walk(pr.bld)
                              for f in fs if f.startswith('out_') and f.endswith('.txt'))
             want = sorted(os.path.normpath(os.path.join(nd['dir'], 'out_%d.txt' % nd['id']))
